@@ -299,6 +299,7 @@ func c16History(seed int64, idx int) c16Result {
 		started := srv.sendStarted
 		srv.sendDelay = time.Duration(40+rnd.Intn(40)) * time.Millisecond
 		oldEpoch := srv.epoch
+		streamsAtKill := srv.newStreams
 		if srv.cur != nil {
 			srv.cur.kill()
 		}
@@ -312,7 +313,19 @@ func c16History(seed int64, idx int) c16Result {
 					break waitResub
 				}
 			case <-deadline:
-				res.kind = "inconclusive"
+				// the retry interval is at most 1.2 s: if no new stream has even been requested 8 s after the failure, the client
+				// has stopped retrying (the same criterion as at quiescence below)
+				time.Sleep(3 * time.Second)
+				srv.mu.Lock()
+				streamsNow := srv.newStreams
+				srv.mu.Unlock()
+				if streamsNow == streamsAtKill {
+					res.kind = "no-retry"
+					res.witness = map[string]interface{}{"calls": trace, "event": "the stream's Recv failed while the client was idle; 8 s later newStream has not been called again",
+						"stacks": extractStacks(allStacks(), "svcDiscoveryClient).run", 3)}
+				} else {
+					res.kind = "inconclusive"
+				}
 				return res
 			}
 		}
